@@ -22,7 +22,7 @@ def do_replay(path):
     return 0
 
 
-ENGINE_B_PROPS = {"C02", "C03", "C09", "C20"}
+ENGINE_B_PROPS = {"C02", "C03", "C09", "C20", "C01", "C06", "C07", "C11", "C12"}
 
 
 def engine_b_part(prop, tier):
